@@ -15,7 +15,7 @@ ASSUME = [
     "runs with a diagnostic are outside C03",
 ]
 
-PARTS = ["rr", "ri", "rm", "mi", "seg", "acc", "stack", "shift", "unary", "imul", "misc", "noop"]
+PARTS = ["rr", "ri", "rm", "mi", "seg", "acc", "stack", "shift", "unary", "imul", "misc", "noop", "lblmem"]
 
 
 def mc(ctx, maxlen):
@@ -55,6 +55,7 @@ def run(ctx):
         n = 6
         for i in range(0, len(sweep), n):
             st = [{"k": "org", "v": 0x7c00}] + ([{"k": "bits", "v": 32}] if bits == 32 else [])
+            st += [{"k": "label", "nm": "lbl0"}, {"k": "data", "mn": "DW", "items": [{"t": "e", "e": {"o": "n", "v": 0x1234}}, {"t": "e", "e": {"o": "n", "v": 0}}, {"t": "e", "e": {"o": "n", "v": 0}}]}]
             for j, cs in enumerate(sweep[i:i + n]):
                 st += cs
                 st.append({"k": "label", "nm": "af%d" % j})
